@@ -308,6 +308,10 @@ func (g *GoBackNConn) Close() error {
 
 		// Try send a FIN message to the peer if they have not already
 		// done so.
+		var (
+			finDone = make(chan struct{})
+			sentFIN bool
+		)
 		select {
 		case <-g.remoteClosed:
 		default:
@@ -318,10 +322,28 @@ func (g *GoBackNConn) Close() error {
 			)
 			defer cancel()
 
-			err := g.sendPacket(ctxc, &PacketFIN{}, false)
-			if err != nil {
-				g.log.Errorf("Error sending FIN: %v", err)
+			// The send function we were given may not return as
+			// soon as its context expires: the mailbox send
+			// functions first wait for a mutex that one of our
+			// own loops can hold for as long as the relay is
+			// unreachable. We therefore don't wait for the FIN
+			// any longer than the FIN timeout. Once the context
+			// is cancelled below, the loops let go and the send
+			// attempt returns too, which we then wait for.
+			go func() {
+				defer close(finDone)
+
+				err := g.sendPacket(ctxc, &PacketFIN{}, false)
+				if err != nil {
+					g.log.Errorf("Error sending FIN: %v", err)
+				}
+			}()
+
+			select {
+			case <-finDone:
+			case <-ctxc.Done():
 			}
+			sentFIN = true
 		}
 
 		// Canceling the context will ensure that we are not hanging on
@@ -332,6 +354,10 @@ func (g *GoBackNConn) Close() error {
 		g.sendQueue.stop()
 
 		g.wg.Wait()
+
+		if sentFIN {
+			<-finDone
+		}
 
 		if g.pingTicker != nil {
 			g.pingTicker.Stop()
